@@ -292,6 +292,19 @@ def tokenise (s : List Char) : List Token := tokAux s.length s []
 /-- the stream a parser sees: no white space, no comments -/
 def significant (ts : List Token) : List Token := ts.filter fun t => t.1 != .whitespace && t.1 != .comment
 
+/-! ## what the writer of a declaration has to respect (hypotheses of the C09 theorems, all decidable) -/
+
+/-- a code point that neither continues a token that ended in front of it nor is absorbed by it: anything but name
+    code points, newlines, `\`, `.`, `+`, `%`, `(`, `*`, `>` (and `!`, see `stopStr`) -/
+def U (c : Char) : Bool :=
+  !(isName c || isNl c || c == '\\' || c == '.' || c == '+' || c == '%' || c == '(' || c == '*' || c == '>')
+
+/-- what may follow a lexeme: a stop code point other than `!`, or `!` not followed by `-` (the `!important` the
+    writer appends; `<` `!` `--` would be a CDO token) -/
+def stopStr : List Char → Bool
+  | c :: r => U c && (c != '!' || r.head? != some '-')
+  | [] => false
+
 /-! ## values of string and url tokens -/
 
 /-- §4.3.5: the value of a string lexeme (quotes removed; a string cut off by EOF has no closing quote: the scan of
